@@ -534,7 +534,7 @@ def execute(case):
                 held = None
                 if not shared:
                     # the freed block sits somewhere down the allocator's free list: dig for it
-                    _addr, held = allocsim.aim(pm.Perm, len(new_tuple), {old_id}, tries=1500)
+                    _addr, held = allocsim.aim(pm.Perm, len(new_tuple), {old_id})
                 if held is not None:
                     held[-1] = None
                 new = pm.Perm(new_tuple)
